@@ -128,7 +128,7 @@ Utf8Valid(s) ==
 B64Char(v, url) == IF v < 26 THEN 65 + v ELSE IF v < 52 THEN 97 + (v - 26) ELSE IF v < 62 THEN 48 + (v - 52)
                    ELSE IF v = 62 THEN (IF url THEN 45 ELSE 43) ELSE (IF url THEN 95 ELSE 47)
 Pow2(k) == CASE k = 0 -> 1 [] k = 1 -> 2 [] k = 2 -> 4 [] k = 3 -> 8 [] k = 4 -> 16 [] k = 5 -> 32 [] k = 6 -> 64
-             [] k = 7 -> 128 [] k = 8 -> 256 [] k = 9 -> 512 [] k = 10 -> 1024
+             [] k = 7 -> 128 [] k = 8 -> 256 [] k = 9 -> 512 [] k = 10 -> 1024 [] k = 11 -> 2048
 \* j-th 6-bit group (0-based) of b, missing low bits are zero
 Sextet(b, j) == LET bit == j * 6
                     bi == bit \div 8 + 1
@@ -186,4 +186,14 @@ DivFrom(a, m, i, rem) ==
 RECURSIVE U64ToDec(_)
 U64ToDec(a) == LET d == DivFrom(a, 10, 1, 0) IN
                IF d.q = U64Zero THEN <<48 + d.r>> ELSE Append(U64ToDec(d.q), 48 + d.r)
+-----------------------------------------------------------------------------
+\* base32 (RFC 4648) in lower case without padding, for inputs whose length is a multiple of 5
+B32Char(v) == IF v < 26 THEN 97 + v ELSE 50 + (v - 26)
+Quintet(b, j) == LET bit == j * 5
+                     bi == bit \div 8 + 1
+                     off == bit % 8
+                     w == b[bi] * 256 + (IF bi + 1 <= Len(b) THEN b[bi + 1] ELSE 0)
+                 IN (w \div Pow2(11 - off)) % 32
+B32Lower(b) == [j \in 1..((Len(b) * 8) \div 5) |-> B32Char(Quintet(b, j - 1))]
+
 =============================================================================
